@@ -80,7 +80,7 @@ PickAll(pool, target, hs) ==
            p == IF h \in ReqHeights(target) THEN target.req[h].peer ELSE Nil
            \* (the range is checked under the pool's lock, the peer id is stored by the requester
            \* afterwards: the range may have been narrowed in between, see StepRequest)
-           can == p # Nil /\ pool.req[h].peer = Nil /\ p \in DOMAIN pool.peers
+           can == p # Nil /\ h \in ReqHeights(pool) /\ pool.req[h].peer = Nil /\ p \in DOMAIN pool.peers
        IN PickAll(IF can THEN Pick(pool, h, p) ELSE pool, target, hs \ {h})
 
 Infer(pool, target) ==
